@@ -32,7 +32,7 @@ import wire
 LEAN_MODULES = ["PySMT.Props.C05"]
 RULE = ("formulas over Bool/Int/Real/BV/String/Array/UF with nested and shadowing quantifiers and shared sub-DAGs; maps "
         "with symbol keys, sub-term keys, a key inside another key, a key and its negation, keys mentioning bound "
-        "variables, whole quantified sub-formulas as keys, keys that only appear after replacing a child (most-specific "
+        "variables, whole quantified sub-formulas as keys, identity pairs t -> t on compound keys with other keys inside t, keys that only appear after replacing a child (most-specific "
         "chains), type-correct values (some mentioning bound variables); function interpretations of arity 1-3 with "
         "applications nested in arguments; both substituter classes and both environment default classes; a case is "
         "non-trivial when the result differs from the input formula or an error is raised; distinct = distinct requests")
@@ -521,6 +521,44 @@ class Generator:
     def type_of(self, f):
         return self.env.stc.get_type(f)
 
+    def pinned_map(self, f):
+        """an identity pair `t -> t` on a compound sub-term (sum, atom, literal, whole quantifier, ...)
+        together with other keys that occur inside `t`: the most-general strategy must leave `t` alone
+        (the outermost match wins), the most-specific one replaces inside and then looks the rebuilt
+        node up"""
+        r = self.rng
+        st = subterms(f)
+        nonleaf = [(n, b) for n, b in st if n.args()]
+        if not nonleaf:
+            return None
+        prefer = [(n, b) for n, b in nonleaf if n.is_quantifier() or n.is_not() or n.is_plus() or n.is_times()
+                  or self.type_of(n).is_bool_type()]
+        pin, _ = r.choice(prefer if prefer and r.random() < 0.7 else nonleaf)
+        inner = [(x, b) for x, b in subterms(pin) if x is not pin
+                 and not (x.is_symbol() and x.symbol_type().is_function_type())]
+        if not inner:
+            return None
+        subs = {pin: pin}
+        r.shuffle(inner)
+        for x, b in inner[:r.choice([1, 1, 2, 3])]:
+            if x in subs:
+                continue
+            if r.random() < 0.15:
+                subs[x] = x                       # a second identity pair, nested
+            else:
+                subs[x] = self.value_for(self.type_of(x))
+        if r.random() < 0.3:
+            # the same inner key also occurs outside the pinned term sometimes: add an outer key too
+            outer = [n for n, b in st if n is not pin and n.args() and n not in subs]
+            if outer:
+                o = r.choice(outer)
+                subs[o] = self.value_for(self.type_of(o))
+        if r.random() < 0.5:
+            items = list(subs.items())
+            r.shuffle(items)
+            subs = dict(items)
+        return subs
+
     def interps_for(self, f, finite_only=False):
         r = self.rng
         m = self.mgr
@@ -697,6 +735,16 @@ def run(ctx):
         subs = g.symbol_map(f)
         for ms in (False, True):
             cases.append((Case(f, dict(subs), {}, ms, env_ms, "symbols"), "sa"))
+    # directed: identity pairs on compound keys with other keys inside them
+    for i in range(120 if quick else 1500):
+        env_ms = rng.random() < 0.25
+        g = gens[env_ms]
+        f = g.formula()
+        subs = g.pinned_map(f)
+        if subs is None:
+            continue
+        for ms in (False, True):
+            cases.append((Case(f, dict(subs), {}, ms, env_ms, "identity-pair+sub"), "k"))
     # directed: a replacement that is the negation of another key, below a negation (finding F50)
     for i in range(6 if quick else 40):
         g = gens[False]
